@@ -260,8 +260,29 @@ def run(ctx):
                 H.add_edge(k * m + extra, r.randrange(k * m))
         else:
             H = gen.random_graph(r, 1, 10, directed=True)
+        # node names may be any hashable: a third of the digraphs get tuple / frozenset / string names, among them
+        # "household" names whose ELEMENTS are themselves nodes of the graph (the docstrings promise that a source like
+        # (1,2,3) is read as the single node (1,2,3))
+        lk = r.random()
+        if lk < 0.12:
+            H = gen.relabel(r, H, "tuple")[0]
+        elif lk < 0.2:
+            H = gen.relabel(r, H, "frozenset")[0]
+        elif lk < 0.26:
+            H = gen.relabel(r, H, "str")[0]
+        elif lk < 0.36 and H.order() >= 3:
+            nodes_ = list(H)
+            m_ = {}
+            for u in nodes_[: max(1, len(nodes_) // 3)]:
+                others = [x for x in nodes_ if x != u and x not in m_]
+                if len(others) >= 2:
+                    m_[u] = tuple(r.sample(others, 2))
+            if len(set(m_.values())) == len(m_):
+                H = nx.relabel_nodes(H, m_, copy=True)
+                ctx.count("dir_perc:household-names")
         idx = gen.index_of(H)
-        rep = dict(entry="estimate_SIR_prob_size_from_dir_perc", n=H.order(), edges=[[idx[u], idx[v]] for u, v in H.edges()])
+        rep = dict(entry="estimate_SIR_prob_size_from_dir_perc", n=H.order(), edges=[[idx[u], idx[v]] for u, v in H.edges()],
+                   names=[repr(u) for u in H][:12])
         try:
             pe, ar = EoN.estimate_SIR_prob_size_from_dir_perc(H)
         except Exception as e:
